@@ -29,14 +29,14 @@ def props_of(func, clause, kind, explicit=None):
         if kind == "raises-unexpected":
             return {"C05"}            # an exception class outside the documented ones: containment, not arithmetic
         if kind == "raises":
-            return {"C07", "C06"}     # e.g. NotEnougData although the value is complete
+            return {"C07", "C06", "C02"}     # e.g. NotEnougData although the value is complete (or the converse)
         if "_read_asn1_header" in f or "_read_asn1_boolean" in f or "peek_header" in f or "read_boolean" in f:
             return {"C07", "C04"}
         return {"C07"}
     if f.startswith("_messages") or f.startswith("specs.sess"):
-        if kind in ("raises", "on-raise"):
-            return {"C06", "C02"}
-        return {"C02", "C06", "C05"}
+        if kind == "raises-unexpected":
+            return {"C05"}
+        return {"C06", "C02"}
     if "_session" in f and "receive" in f:
         out = set()
         if "msgs(" in c or "residue(" in c:
@@ -179,8 +179,8 @@ def run_property(pid, tier):
                 errors.append({"function": jb["ckey"], "error": res["error"][:600], "kind": res.get("error_kind")})
         for o in res["obligations"]:
             o["function"] = jb["ckey"]
-            if pid not in props_of(jb["ckey"], o.get("clause"), o.get("kind")) and not jb["ckey"].startswith("specs.") and reg.get("filter_by_clause", True) \
-                    and ("_session" in jb["ckey"] or jb["ckey"].startswith("asn1")):
+            tags = props_of(jb["ckey"], o.get("clause"), o.get("kind"))
+            if tags and pid not in tags and not jb["ckey"].startswith("specs.") and reg.get("filter_by_clause", True):
                 continue
             instances.append(o)
             solver_s += o["time"]
